@@ -14,6 +14,8 @@ C01.g restore reuses existing destination content only for exact-size regular fi
   attached to the request they were verified for (C14.f, C14.h).
 C01.h backup-side metadata wiring (see backup_metadata_rule): mode, mtime (untruncated), uid/gid/user/group, inode, links,
   size each come from the matching fs::Metadata accessor; symlink targets from read_link(entry.path()) on the is_symlink edge.
+C01.i ranged reads (OpenFile::read_at): per loop round the appended bytes = min(len(blob) - offset, remaining), then
+  offset := 0, index += 1, remaining -= appended (symbolic one-iteration summary).
 C01.f restore writes each blob at the offset recorded for it, taken from the read of the matching range.
 """
 import re
@@ -45,6 +47,8 @@ def run(ctx, rep):
     # restore-side necessary conditions for byte equality (decided in C14)
     n = borrow(rep, ctx, C14, lambda o: o.rule in ("C14.f", "C14.h", "C14.i"), "C01.g")
     rep.floor("C01.g", "borrowed obligations", n, 6)
+    rep.rule("C01.i", "ranged reads: one-iteration summary of OpenFile::read_at (symbolic lengths)")
+    ranged_read_rule(ctx, rep, "C01.i")
     rep.rule("C01.h", "backup records each metadata field from the matching file-system accessor; symlink targets via read_link")
     backup_metadata_rule(ctx, rep, "C01.h")
     # ---- C01.c -------------------------------------------------------------------------------------
@@ -238,3 +242,47 @@ def backup_metadata_rule(ctx, rep, R):
             dirs.append(bb)
     okd = len(dirs) == 1 and only_via(TN, dirs[0], lambda x: x[0] == "call" and x[1].endswith("Metadata::is_dir"), True)
     rep.check(R, "dir-kind", okd, where=TN.loc(), what="an entry becomes a directory node exactly on the is_dir() edge")
+
+
+def ranged_read_rule(ctx, rep, R):
+    """C01.i ranged reads (OpenFile::read_at), one-iteration summary by symbolic evaluation (engine/symlen.py): in each
+    round of the loop the bytes appended are min(len(blob) - offset, length) taken from blob[offset..]; afterwards the
+    offset is 0, the remaining length shrinks by exactly the bytes appended and the blob index advances by one."""
+    import symlen
+    from symlen import Lin
+    prog = ctx.prog
+    RA = prog.find1(r"^rustic_core::vfs::OpenFile::read_at$")
+    a = symlen.Analysis(RA, [("append", r"BytesMut::extend_from_slice$", 1, "blen"), ("min0", r"cmp::Ord::min$", 0, "ival"), ("min1", r"cmp::Ord::min$", 1, "ival"),
+                             ("slice_from", r"impl std::ops::Index<I> for \[T\]>::index$", 1, "ival")], arg_names={3: "offset", 4: "length"}).run()
+    app = [(bb, v) for (n, bb, v) in a.found if n == "append"]
+    rep.require(R, "read_at/append-site", len(app) == 1, where=RA.loc(), what="read_at appends blob bytes at one site")
+    if len(app) != 1:
+        return
+    abb = app[0][0]
+    loops = [(h, l, C.loop_blocks(RA, h, l)) for (l, h) in C.back_edges(RA)]
+    mine = sorted([x for x in loops if abb in x[2]], key=lambda x: len(x[2]))
+    rep.require(R, "read_at/loop", bool(mine), where=RA.loc(), what="the append happens in the loop over the file's blobs")
+    if not mine:
+        return
+    h, l, blocks = mine[0]
+    hs, ls = a.instate.get(h), a.instate.get(l)
+    mins = [Lin.sym(n) for bb, n in a.call_syms.items() if n.startswith("min@") and bb in blocks]
+    lens = [Lin.sym(n) for bb, n in a.call_syms.items() if n.startswith("len@") and bb in blocks]
+    # identify the loop-carried integers by their behaviour at the latch
+    carried = {k: (hs.ival.get(k), ls.ival.get(k)) for k in (ls.ival if ls else {}) if hs and k in hs.ival and hs.ival[k].is_const() is False and set(hs.ival[k].t) == {f"join{h}_ival{k}"}}
+    off = [k for k, (hv, lv) in carried.items() if lv == Lin(0)]
+    idx = [k for k, (hv, lv) in carried.items() if lv == hv + Lin(1)]
+    rem = [k for k, (hv, lv) in carried.items() if mins and lv == hv - mins[0]]
+    ok_sum = len(off) == 1 and len(idx) == 1 and len(rem) == 1
+    rep.check(R, "read_at/iteration-summary", ok_sum, where=where(RA, abb),
+              what="per round: offset := 0, blob index += 1, remaining length -= bytes appended" if ok_sum else
+                   f"the loop-carried values do not follow (offset := 0, index += 1, remaining -= appended): {[(k, str(v[0]), str(v[1])) for k, v in carried.items()]}")
+    ok_app = bool(mins) and app[0][1] == mins[0]
+    rep.check(R, "read_at/appended-is-min", ok_app, where=where(RA, abb), what="the bytes appended in a round are exactly the min(..) computed for it" if ok_app else f"the appended slice has length {app[0][1]}, not the computed minimum")
+    if ok_sum and mins and lens:
+        m0 = [v for (n, bb, v) in a.found if n == "min0"]
+        m1 = [v for (n, bb, v) in a.found if n == "min1"]
+        want0 = lens[-1] - hs.ival[off[0]]
+        okm = bool(m0) and bool(m1) and {repr(m0[0]), repr(m1[0])} == {repr(want0), repr(hs.ival[rem[0]])} or (bool(m0) and bool(m1) and any(m0[0] == ln - hs.ival[off[0]] for ln in lens) and m1[0] == hs.ival[rem[0]])
+        rep.check(R, "read_at/min-operands", okm, where=where(RA, abb), what="min is taken over (len(blob) - offset, remaining length)" if okm else f"min is taken over ({m0}, {m1})")
+        sf = [v for (n, bb, v) in a.found if n == "slice_from"]
